@@ -1,8 +1,12 @@
 package main
 
 import (
+	"bufio"
 	"bytes"
 	"fmt"
+	"io"
+	"os"
+	"path/filepath"
 	"strconv"
 	"strings"
 
@@ -66,6 +70,82 @@ func readClass(b []byte) string {
 		return "panic"
 	}
 	return out
+}
+
+// readClassLogged: the same read with a logger configured (smf.Log): logging must not change the result
+func readClassLogged(b []byte) string {
+	var out string
+	if p := try(func() {
+		s, err := smf.ReadFrom(bytes.NewReader(b), smf.Log(smf.LogTo(io.Discard)))
+		if err != nil {
+			out = "error"
+		} else {
+			out = "ok:" + showSMF(s)
+		}
+	}); p != "" {
+		return "panic"
+	}
+	return out
+}
+
+// readClassFile: the bytes written to a file and read with smf.ReadFile (an *os.File: a Seeker that is no ByteReader)
+func readClassFile(b []byte) string {
+	dir := os.Getenv("VERIF_WORK")
+	if dir == "" {
+		dir = os.TempDir()
+	}
+	path := filepath.Join(dir, fmt.Sprintf("rd-%d.mid", os.Getpid()))
+	if err := os.WriteFile(path, b, 0644); err != nil {
+		return "harness: " + err.Error()
+	}
+	defer os.Remove(path)
+	var out string
+	if p := try(func() {
+		s, err := smf.ReadFile(path)
+		if err != nil {
+			out = "error"
+		} else {
+			out = "ok:" + showSMF(s)
+		}
+	}); p != "" {
+		return "panic"
+	}
+	return out
+}
+
+// otherSources: the same bytes through sources with other method sets than bytes.Reader — an *os.File and an
+// io.SectionReader (Seekers without ReadByte), a bufio.Reader, a strings.Reader, a bytes.Buffer: all must read alike.
+func otherSources(b []byte, mem string) string {
+	if got := readClassFile(b); got != mem && !strings.HasPrefix(got, "harness:") {
+		return "smf.ReadFile of the same bytes gives " + short(got) + ", ReadFrom(bytes.Reader) " + short(mem)
+	}
+	srcs := []struct {
+		name string
+		rd   io.Reader
+	}{
+		{"io.SectionReader", io.NewSectionReader(bytes.NewReader(b), 0, int64(len(b)))},
+		{"bufio.Reader(16)", bufio.NewReaderSize(bytes.NewReader(b), 16)},
+		{"bufio.Reader", bufio.NewReader(bytes.NewReader(b))},
+		{"strings.Reader", strings.NewReader(string(b))},
+		{"bytes.Buffer", bytes.NewBuffer(append([]byte{}, b...))},
+		{"iotest-like one byte reader over a SectionReader", &oneByteSeeker{io.NewSectionReader(bytes.NewReader(b), 0, int64(len(b)))}},
+	}
+	for _, s := range srcs {
+		if got := readClassFrom(s.rd); got != mem {
+			return "ReadFrom(" + s.name + ") gives " + short(got) + ", ReadFrom(bytes.Reader) " + short(mem)
+		}
+	}
+	return ""
+}
+
+// oneByteSeeker: a Seeker that delivers at most 7 bytes per Read
+type oneByteSeeker struct{ *io.SectionReader }
+
+func (o *oneByteSeeker) Read(p []byte) (int, error) {
+	if len(p) > 7 {
+		p = p[:7]
+	}
+	return o.SectionReader.Read(p)
 }
 
 // ---------- histories ----------
